@@ -103,7 +103,8 @@ def classify(fr: dict[str, Any], src: int, dst: int, req: bytes | None) -> dict[
     return {"k": "status", "cw": cw}
 
 
-payload_s = st.one_of(st.binary(min_size=1, max_size=6), st.binary(min_size=1, max_size=40), st.binary(min_size=1, max_size=3))
+# an empty payload is a legal data frame (Len == 2: address header only)
+payload_s = st.one_of(st.binary(min_size=1, max_size=6), st.binary(min_size=1, max_size=40), st.binary(min_size=0, max_size=3), st.just(b""))
 addr = st.integers(0, 255)
 
 
@@ -233,8 +234,8 @@ def check(case: dict[str, Any]) -> list[tuple[str, str]]:
     for f, c in zip(frames, cls):
         if c["k"] != "alive" or f.seq > first_ctrl:
             continue  # after an error/status word the client may already have closed the connection
-        if r["ops"] and f.t_done > r["ops"][-1].t1:
-            continue
+        if r["ops"] and f.t_done > r["ops"][-1].t1 - 0.005:
+            continue  # arrives after (or in a tie with) the end of the program / the instant the client closed the connection
         hit = [x for x in replies if abs(x[0] - f.t_done) < 1e-6]
         if not hit:
             out.append(("C07/alive-check/not-answered-immediately", f"alive check complete at t={f.t_done:.3f}; replies at {[round(x[0], 3) for x in replies]}; {_desc(case)}"))
